@@ -4,8 +4,10 @@ CONSTANTS
  MaxIdx = 3
  MaxTerm = 2
  MaxSeg = 3
- MaxOps = 8
+ MaxOps = 7
  MaxHist = 0
+ Groups = {1}
+ Snapshots = TRUE
 VIEW view
 INVARIANT RemovalSafe
 INVARIANT LsmDurable
